@@ -221,6 +221,45 @@ Definition create_model (n_chroms : Z) (chroms : list Z) (px : list pixel) (symm
   | _, _ => None
   end.
 
+(* ------------------------------------------------- write_pixels: the resizable columns *)
+
+(** dset.resize((m,)): truncate or zero-extend *)
+Definition resize (col : list Z) (m : Z) : list Z :=
+  firstn (Z.to_nat m) col ++ repeat 0 (Z.to_nat m - length col).
+(** dset[lo : lo+len(data)] = data   on a dataset that is long enough *)
+Definition write_at (col : list Z) (lo : Z) (data : list Z) : list Z :=
+  firstn (Z.to_nat lo) col ++ data ++ skipn (Z.to_nat lo + length data) col.
+(** one iteration of write_pixels for one column:
+      dset.resize((nnz + n,)); dset[nnz : nnz + n] = data; nnz += n *)
+Definition write_chunk (st : list Z * Z) (data : list Z) : list Z * Z :=
+  let '(col, nnz) := st in
+  let n := zlen data in
+  (write_at (resize col (nnz + n)) nnz data, nnz + n).
+(** write_pixels on one column preallocated by prepare_pixels with init_size zero rows;
+    after the loop (repair of defect D21):  if nnz == 0: resize((0,)) *)
+Definition write_pixels_col (init_size : Z) (chunks : list (list Z)) : list Z * Z :=
+  let '(col, nnz) := fold_left write_chunk chunks (repeat 0 (Z.to_nat init_size), 0) in
+  if nnz =? 0 then ([], 0) else (col, nnz).
+(** the loop as it was before that repair (kept to state what was wrong) *)
+Definition write_pixels_col_old (init_size : Z) (chunks : list (list Z)) : list Z * Z :=
+  fold_left write_chunk chunks (repeat 0 (Z.to_nat init_size), 0).
+
+(** create() on a stream that arrives in chunks: prepare_pixels (init_size = min(5*n_bins, max_size)),
+    write_pixels per column, total = sum of the chunk sums, then both indexes *)
+Definition create_chunked (n_chroms : Z) (chroms : list Z) (chunks : list (list pixel)) (symm : bool)
+  : option cooler :=
+  let n_bins := zlen chroms in
+  let max_size := if symm then n_bins * (n_bins - 1) / 2 + n_bins else n_bins * n_bins in
+  let init := Z.min (5 * n_bins) max_size in
+  let '(b1, nnz_) := write_pixels_col init (map (map row) chunks) in
+  let '(b2, _) := write_pixels_col init (map (map col) chunks) in
+  let '(cnt, _) := write_pixels_col init (map (map val) chunks) in
+  let total := sumZ (map (fun ch => sumZ (map val ch)) chunks) in
+  match index_bins chroms n_chroms n_bins, index_pixels b1 n_bins nnz_ with
+  | Some co, Some bo => Some (mkCooler n_bins n_chroms chroms b1 b2 cnt bo co nnz_ total symm)
+  | _, _ => None
+  end.
+
 (* ------------------------------------------------- helpers of the correspondence run *)
 
 Definition rle_eqb (r1 r2 : rle) : bool :=
